@@ -870,6 +870,9 @@ class PolyhedralTermList(TermList):  # noqa: WPS338
             ValueError: Constraints are likely unfeasible.
         """
         obj = PolyhedralTermList([PolyhedralTerm(variables=objective, constant=0)])
+        if self.lacks_constraints() and obj.vars:
+            # nothing bounds the objective
+            return None
         _, self_mat, self_cons, obj_mat, _ = PolyhedralTermList.termlist_to_polytope(self, obj)  # noqa: WPS236
         polarity = 1
         if maximize:
